@@ -176,6 +176,13 @@ def build(ctx, cfg):
     kwargs = {}
     if cfg.get('precision') is not None:
         kwargs['global_time_precision'] = cfg['precision']
+    run.g0 = 0
+    if cfg.get('g0'):
+        # the engine starts at a symbolic global time (part of a larger,
+        # older simulation)
+        run.g0 = ctx.int('g0', 1, cfg['g0'])
+        kwargs['initial_global_time'] = run.g0
+        ctx.goal('initial global time not 0')
     topology = {n: {'s': ('s',)} for n in names}
     processes = dict(run.procs)
     if cfg.get('nested') and N >= 2:
